@@ -708,8 +708,89 @@ def FunctorOrdered(rng):
       'fam_functor_ordered']
 
 
+def WideOrder(rng, form=None):
+  """Many order keys: six columns with the descending mark as an item of its
+  own (>= 10 items in @OrderBy), or ten columns in the "col desc" form; the
+  leading keys tie, so every key's place and direction matters."""
+  form = form or rng.choice(['marker', 'string10'])
+  ncol = 6 if form == 'marker' else 10
+  rows = []
+  for i in range(rng.randint(6, 9)):
+    rows.append(tuple([rng.randint(0, 1) for _ in range(ncol - 1)] + [i]))
+  rng.shuffle(rows)
+  E = Facts('E', rows)
+  vs = [Var('v%d' % i) for i in range(ncol)]
+  keys = list(range(ncol))
+  rng.shuffle(keys)
+  descs = [rng.random() < 0.5 for _ in keys]
+  if form == 'marker':
+    while sum(descs) < 4:
+      descs[rng.randrange(ncol)] = True
+  P = Pred('P', [Rule([('col%d' % i, vs[i], '') for i in range(ncol)],
+                      [Atom('E', [('col%d' % i, vs[i]) for i in range(ncol)])])],
+           order=[('col%d' % k, d) for k, d in zip(keys, descs)],
+           limit=rng.choice([-1, 3, 4]))
+  if form == 'marker':
+    P['order_desc_marker'] = True
+  Read = Pred('ReadP', [Rule([('col0', vs[ncol - 1], '')],
+                             [Atom('P', [('col%d' % (ncol - 1), vs[ncol - 1])])])])
+  return Prog([E, P, Read]), ['P', 'ReadP'], ['P'], ['fam_wide_order',
+                                                    'fam_wide_order_' + form]
+
+
+def MarkerDesc(rng):
+  """@OrderBy(P, "col0", "DESC", "col1", "DESC", "col2"): several descending
+  marks, ties on the first key."""
+  x, y, z = Var('x'), Var('y'), Var('z')
+  rows = [(rng.randint(1, 3), rng.choice([10, 20, 30]), i) for i in range(7)]
+  rng.shuffle(rows)
+  E = Facts('E', rows)
+  P = Pred('P', [Rule([('col0', x, ''), ('col1', y, ''), ('col2', z, '')],
+                      [Atom('E', [('col0', x), ('col1', y), ('col2', z)])])],
+           order=[('col0', True), ('col1', True), ('col2', rng.random() < 0.5)],
+           limit=rng.choice([3, 4, -1]))
+  P['order_desc_marker'] = True
+  Read = Pred('ReadP', [Rule([('col0', z, '')], [Atom('P', [('col2', z)])])])
+  return Prog([E, P, Read]), ['P', 'ReadP'], ['P'], ['fam_marker_desc']
+
+
+def UnionTopK(rng, form=None):
+  """Top-K of a predicate with several rules (or a `|` body), not
+  aggregating: the K rows are chosen after the union is ordered, so a rule
+  whose first K rows in scan order are not its best K still contributes its
+  best ones."""
+  form = form or rng.choice(['two_rules', 'disjunction'])
+  v, n = Var('v'), Var('n')
+  k = rng.randint(2, 3)
+  names = ['a', 'b', 'c', 'd', 'e', 'f', 'g', 'h', 'i', 'j']
+  vals = list(range(1, 11))
+  rng.shuffle(vals)
+  a_rows = sorted(zip(vals[:5], names[:5]))        # ascending: scan order is worst first
+  b_rows = sorted(zip(vals[5:], names[5:]))
+  A, B = Facts('A', a_rows), Facts('B', b_rows)
+  head = [('col0', v, ''), ('col1', n, '')]
+  if form == 'disjunction':
+    rules = [Rule(head, [Or([[Atom('A', [('col0', v), ('col1', n)])],
+                             [Atom('B', [('col0', v), ('col1', n)])]])])]
+  else:
+    rules = [Rule(head, [Atom('A', [('col0', v), ('col1', n)])]),
+             Rule(head, [Atom('B', [('col0', v), ('col1', n)])])]
+  Top = Pred('Top', rules, order=[('col0', True), ('col1', False)], limit=k)
+  if rng.random() < 0.5:
+    Top['order_as_denotation'] = True
+    Top['limit_as_denotation'] = True
+  Read = Pred('ReadTop', [Rule([('col0', n, '')], [Atom('Top', [('col0', v), ('col1', n)])])])
+  return Prog([A, B, Top, Read]), ['Top', 'ReadTop'], ['Top'], [
+      'fam_union_top_k', 'fam_union_top_k_' + form]
+
+
 C18_FAMILIES = [
     ('ordered_aggregate_two_rules', lambda r: OrderedAggregate(r, 'two_rules_denotation')),
     ('ordered_aggregate_disjunction', lambda r: OrderedAggregate(r, 'disjunction_denotation')),
     ('ordered_aggregate_annotation', lambda r: OrderedAggregate(r, 'two_rules_annotation')),
-    ('functor_ordered', FunctorOrdered)]
+    ('functor_ordered', FunctorOrdered),
+    ('wide_order_marker', lambda r: WideOrder(r, 'marker')),
+    ('wide_order_string10', lambda r: WideOrder(r, 'string10')),
+    ('marker_desc', MarkerDesc),
+    ('union_top_k_two_rules', lambda r: UnionTopK(r, 'two_rules')),
+    ('union_top_k_disjunction', lambda r: UnionTopK(r, 'disjunction'))]
